@@ -1,5 +1,6 @@
 import MJ.Model.Serde
 import MJ.Model.Json
+import MJ.Model.ValueSer
 /-! Line driver for C16.
 
   rt <shape> ; <data>             → `<value canon>\t<ok data canon|err|?>`
@@ -8,7 +9,7 @@ import MJ.Model.Json
   jparse <hex>                    → hex of the string the Lean JSON string parser reads from the text
   other lines                     → `-`
 -/
-open MJ.Serde MJ.Json
+open MJ.Serde MJ.Json MJ.ValueSer
 
 abbrev Toks := List String
 
@@ -208,45 +209,109 @@ def handleRt (body : String) : String :=
 
 /-! ### JSON -/
 
+def enOfKind (kind : String) (n : Nat) : Option En :=
+  match kind with
+  | "os" | "iu" => some (.hinted 0 none)
+  | "ie" | "ic" | "oi" | "cx" | "cr" => some (.hinted n (some n))
+  | "if" | "ci" => some (.hinted 0 (some n))
+  | "cq" | "cl" => some (.sized n)
+  | "cv" | "cs" => some .exact
+  | "ce" => some .empty
+  | "cn" => some .nonEnumerable
+  | "ch" => some (.hinted n none)
+  | "cw" => some (.hinted (min 1 n) (some n))
+  | _ => none
+
 mutual
-partial def pVal : Toks → Option (V × Toks)
+partial def pLV : Toks → Option (LV × Toks)
   | [] => none
-  | "undef" :: ts => some (.undefined, ts)
-  | "none" :: ts => some (.none, ts)
+  | "undef" :: ts => some (.leaf .undefined, ts)
+  | "none" :: ts => some (.leaf .none, ts)
   | t :: ts =>
     let rest := (t.drop 1).toString
     match t.toList.head? with
-    | some 'T' => some (.bool true, ts)
-    | some 'F' => some (.bool false, ts)
-    | some 'i' => (rest.toInt?).map fun i => (.int false i, ts)
-    | some 'u' => (rest.toInt?).map fun i => (.int true i, ts)
-    | some 'd' => (rest.toNat?).map fun n => (.f64 n, ts)
-    | some 's' => (strOfHex rest).map fun s => (.str s false, ts)
-    | some 'S' => (strOfHex rest).map fun s => (.str s true, ts)
-    | some 'O' => (strOfHex rest).map fun s => (.str s false, ts)   -- plain objects serialise as their text
-    | some 'y' => some (.bytes (bytesOfHex rest), ts)
+    | some 'T' => some (.leaf (.bool true), ts)
+    | some 'F' => some (.leaf (.bool false), ts)
+    | some 'i' => (rest.toInt?).map fun i => (.leaf (.int false i), ts)
+    | some 'u' => (rest.toInt?).map fun i => (.leaf (.int true i), ts)
+    | some 'd' => (rest.toNat?).map fun n => (.leaf (.f64 n), ts)
+    | some 's' => (strOfHex rest).map fun s => (.leaf (.str s false), ts)
+    | some 'S' => (strOfHex rest).map fun s => (.leaf (.str s true), ts)
+    | some 'O' => (strOfHex rest).map fun s => (.leaf (.str s false), ts)   -- plain objects serialise as their text
+    | some 'y' => some (.leaf (.bytes (bytesOfHex rest)), ts)
     | some 'L' =>
       match ts with
-      | n :: r => (n.toNat?).bind fun k => (pValN k r).map fun (xs, r') => (.seq false xs, r')
+      | n :: r => (n.toNat?).bind fun k => (pLVN k r).map fun (xs, r') => (.list false xs, r')
       | [] => none
     | some 'P' =>
       match ts with
-      | n :: r => (n.toNat?).bind fun k => (pValN k r).map fun (xs, r') => (.seq true xs, r')
+      | n :: r => (n.toNat?).bind fun k => (pLVN k r).map fun (xs, r') => (.list true xs, r')
+      | [] => none
+    | some 'Z' =>
+      match ts with
+      | n :: r => (n.toNat?).bind fun k => (enOfKind rest k).bind fun en =>
+          (pLVN k r).map fun (xs, r') => (.lazy en xs, r')
       | [] => none
     | some 'M' =>
       match ts with
-      | n :: r => (n.toNat?).bind fun k => (pVPairN k r).map fun (xs, r') => (.map xs, r')
+      | n :: r => (n.toNat?).bind fun k => (pLVPairN k r).map fun (xs, r') => (.vmap xs, r')
+      | [] => none
+    | some 'W' =>
+      match ts with
+      | n :: r => (n.toNat?).bind fun k => (pLVPairN k r).map fun (xs, r') => (.omap (rest != "wn") xs, r')
       | [] => none
     | _ => none
-partial def pValN : Nat → Toks → Option (List V × Toks)
+partial def pLVN : Nat → Toks → Option (List LV × Toks)
   | 0, ts => some ([], ts)
-  | k+1, ts => (pVal ts).bind fun (d, r) => (pValN k r).map fun (ds, r') => (d :: ds, r')
-partial def pVPairN : Nat → Toks → Option (List (V × V) × Toks)
+  | k+1, ts => (pLV ts).bind fun (d, r) => (pLVN k r).map fun (ds, r') => (d :: ds, r')
+partial def pLVPairN : Nat → Toks → Option (List (LV × LV) × Toks)
   | 0, ts => some ([], ts)
   | k+1, ts =>
-    (pVal ts).bind fun (a, r) => (pVal r).bind fun (b, r') =>
-      (pVPairN k r').map fun (ds, r'') => ((a, b) :: ds, r'')
+    (pLV ts).bind fun (a, r) => (pLV r).bind fun (b, r') =>
+      (pLVPairN k r').map fun (ds, r'') => ((a, b) :: ds, r'')
 end
+
+/-- the entries of every value map in iteration order (`Value::cmp` order for the BTreeMap build) -/
+partial def normLV (btree : Bool) : LV → LV
+  | .list t xs => .list t (xs.map (normLV btree))
+  | .lazy en xs => .lazy en (xs.map (normLV btree))
+  | .omap e kvs => .omap e (kvs.map fun p => (normLV btree p.1, normLV btree p.2))
+  | .vmap kvs =>
+    let kvs' := kvs.map fun p => (normLV btree p.1, normLV btree p.2)
+    if btree then
+      .vmap (kvs'.foldr (fun p acc =>
+        let rec ins : List (LV × LV) → List (LV × LV)
+          | [] => [p]
+          | q :: rest => if keyCmp (toV false p.1) (toV false q.1) == .lt then p :: q :: rest else q :: ins rest
+        ins acc) [])
+    else .vmap kvs'
+  | v => v
+
+partial def callText : Call → String
+  | .unit => "none"
+  | .bool b => if b then "T" else "F"
+  | .int i => s!"i{i}"
+  | .f64 b => s!"d{b}"
+  | .str s => "s" ++ hexOfStr s
+  | .bytes b => "y" ++ hexOfBytes (ByteArray.mk (b.map (fun n => UInt8.ofNat n)).toArray)
+  | .seq a xs =>
+    " ".intercalate ("Q" :: (match a with | some n => toString n | none => "_") :: toString xs.length :: xs.map callText)
+  | .map a kvs =>
+    " ".intercalate ("D" :: (match a with | some n => toString n | none => "_") :: toString kvs.length ::
+      kvs.flatMap fun p => [callText p.1, callText p.2])
+
+def handleSer (btree : Bool) (desc : String) : String :=
+  match pLV (toks desc) with
+  | some (lv, []) => callText (serCalls (normLV btree lv))
+  | _ => "bad-case"
+
+def handleLde (btree : Bool) (body : String) : String :=
+  match body.splitOn " ; " with
+  | [v, s] =>
+    match pLV (toks v), pShape (toks s) with
+    | some (lv, []), some (shape, []) => rText (de shape (toV false (normLV btree lv)))
+    | _, _ => "bad-case"
+  | _ => "bad-case"
 
 /-- members sorted by key, recursively (the value map iterates in its own key order) -/
 partial def normJ : J → J
@@ -259,9 +324,9 @@ partial def normJ : J → J
 def sortedChars (t : List Char) : List Char := t.mergeSort (fun a b => a.toNat ≤ b.toNat)
 
 def handleJson (btree : Bool) (mode : String) (desc : String) (impl : String) : String :=
-  match pVal (toks desc) with
-  | some (v0, []) =>
-    let v := if btree then sortMaps v0 else v0
+  match pLV (toks desc) with
+  | some (lv, []) =>
+    let v := toV false (normLV btree lv)
     match jsonOf v with
     | .refuse => "refuse\t-\t-"
     | .unmodelled => "?\t-\t-"
@@ -310,6 +375,8 @@ def handle (btree : Bool) (line : String) : String :=
     match (case.drop 5).toString.splitOn " " with
     | mode :: rest => handleJson btree mode (" ".intercalate rest) (fields.getD 1 "")
     | [] => "bad-case\t-\t-"
+  else if case.startsWith "ser " then handleSer btree (case.drop 4).toString
+  else if case.startsWith "lde " then handleLde btree (case.drop 4).toString
   else if case.startsWith "jparse " then handleJparse (case.drop 7).toString
   else "-"
 
